@@ -118,6 +118,12 @@ def run(ctx):
                        'pending queue of an interest puts it at the end opposite to the end the delivery takes records from (seen through '
                        'every list the records are moved to on the way, order-preserving or reversing), never into the middle', floor=2)
     ctx.section(status_order)
+    ctx.rule('R-C11h', 'a child is found under the pid it was filed under: the pid field is the key the set is ordered by, so an interest enters '
+                       'the set with its key final (after fork(): on every path from fork() to the insertion the pid field of the inserted interest '
+                       'was stored the value fork() returned), and no store to the pid of an interest that is in the set (inserted by the same '
+                       'root, or reached by walking the tree) is still in effect when the order of the set is relied upon (the set\'s lock is '
+                       'released, the tree is searched, another node is inserted, the function returns) without the node having been deleted or filed anew', floor=3)
+    ctx.section(key_final)
 
 
 # --------------------------------------------------------------------------
@@ -740,3 +746,50 @@ def status_order(ctx):
                       'the record handed to the handler is the oldest one still queued (the delivery %s; queue filled: %s)'
                       % ('; '.join(takes), '; '.join(where)),
                path=path_to(v0.g, e0) if bad else None, fn=v0.root.q)
+
+
+# --------------------------------------------------------------------------
+# R-C11h
+# --------------------------------------------------------------------------
+
+def key_final(ctx):
+    """The pid set is a search tree: a node is found only where the comparator put it when it was inserted.  Two
+    necessary conditions of "a child spawned through the library is never missed" and of "every reaped status is
+    delivered to that interest": (1) in a root that forks, the interest inserted after fork() carries, at the insertion,
+    the pid fork() returned (must-analysis from the fork call, value flow of fork's result through locals / records);
+    (2) in every root, a store to the pid of an interest that is in the set (may-analysis: inserted by the root or
+    reached through the tree links, not deleted since) is undone by deleting the node / filing it anew before anybody
+    can rely on the order: before the lock is released, the tree is searched, a node is inserted, the root returns."""
+    prog = ctx.prog
+    rid = 'R-C11h'
+    lock = h.wait_lock(prog)
+    forks = h.contexts(prog, 'is_fork')
+    if not forks:
+        raise AnalysisBroken('spawn helper: no fork() call reachable from a root of iv_wait.c')
+    for v, fks in forks:
+        nm = h.role_name(prog, v)
+        res = h.keyed_by_fork(v, fks)
+        if not res:
+            raise AnalysisBroken('%s: no insertion of an interest follows fork()' % nm)
+        bad = [e for (e, ok) in res if not ok]
+        e0 = (bad or [e for (e, ok) in res])[0]
+        ctx.ob(rid, '%s:inserted-under-the-child-pid' % nm, not bad, loc=e0['loc'],
+               detail=('%s: on some path from fork() the pid field of the inserted interest does not hold the value fork() returned at this '
+                       'point: the node is filed under a stale key and the reaper, which searches for the pid it reaped, does not find it '
+                       '(the status of the child is dropped as a stranger\'s)' % describe(e0)) if bad else
+                      'on every path from fork() to the insertion the pid field of the inserted interest was stored the value fork() returned',
+               path=path_to(v.g, e0) if bad else None, fn=v.root.q)
+    n = 0
+    for v in h.views(prog):
+        nst, nins, viol = h.key_changes(v, lock)
+        if not nst and not nins:
+            continue
+        n += 1
+        ctx.ob(rid, '%s:key-final-while-in-set' % h.role_name(prog, v), not viol, loc=viol[0][0] if viol else v.root.loc,
+               detail=('the pid of an interest that is in the set is stored to, and the node is neither deleted nor filed anew before %s at %s: '
+                       'the tree is no longer ordered by the keys its nodes carry, lookups of this and of other pids go astray'
+                       % (viol[0][2], relpath(viol[0][1]))) if viol else
+                      '%d insertion(s), %d store(s) to a pid field: none to an interest that is in the set at that moment' % (nins, nst),
+               fn=v.root.q)
+    if not n:
+        raise AnalysisBroken('no insertion into the pid set and no store to a pid field found in the roots of iv_wait.c')
